@@ -1,0 +1,1 @@
+//! Verification facade: `wal` (feature `verif`).
